@@ -1,9 +1,10 @@
 import BurrowVerif.Model.Config
+import BurrowVerif.Model.Validate
 import Driver.Util
 
 /-! Driver for stream `config` (C19): facts line → `Config.start` with the repaired handler. -/
 namespace Driver.ConfigD
-open Burrow.Config Driver
+open Burrow.Config Burrow.Validate Driver
 
 def unhex (s : String) : String :=
   if s == "-" then "" else
@@ -27,17 +28,29 @@ def tls? (s : String) (sep : String) : Option (Option Tls) :=
   | [a, r, c, p] => some (some { caSet := b a, caReadable := b r, certKeySet := b c, pairLoads := b p })
   | _ => none
 
-def profile? (s : String) : Option Profile :=
+def addr? (s : String) : Option AddrFacts :=
   match s.splitOn "," with
+  | [sp, h, p, ip, an] => some { splitOk := b sp, host := unhex h, portOk := b p, ipOk := b ip, allNumeric := b an }
+  | _ => none
+
+def addrs? (s : String) : Option (List AddrFacts) := if s == "-" then some [] else (s.splitOn "+").mapM addr?
+
+def profile? (s : String) : Option Profile :=
+  match s.splitOn "~" with
   | [n, k, v, t] => do
     let t ← tls? t "/"
-    pure { named := b n, known := b k, versionOk := b v, tls := t }
+    let vOk ← match v.splitOn "/" with
+      | [sar, ver] => some (kafkaVersionOk (b sar) (unhex ver))
+      | _ => none
+    pure { named := b n, known := b k, versionOk := vOk, tls := t }
   | _ => none
 
 def parse? (args : List String) : Option (Config × Bool) := do
   let hn ← kv args "hn"
   let zk ← match (← kv args "zk").splitOn ":" with
-    | [n, ok, r] => some { serversN := n.toNat?.getD 0, serversOk := b ok, rootOk := b r : Zk }
+    | [srv, r] => do
+      let l ← addrs? srv
+      pure { serversN := l.length, serversOk := validHostList l, rootOk := validZkPath (unhex r) : Zk }
     | _ => none
   let storage ← (items (← kv args "st")).mapM fun s =>
     match s.splitOn ":" with
@@ -49,23 +62,27 @@ def parse? (args : List String) : Option (Config × Bool) := do
     | _ => none
   let listeners ← (items (← kv args "hs")).mapM fun s =>
     match s.splitOn ":" with
-    | [a, t] => do pure { addrOk := b a, tls := ← tls? t "," : Listener }
+    | [a, t] => do pure { addrOk := validHostPort true (← addr? a), tls := ← tls? t "," : Listener }
     | _ => none
   let notifiers ← (items (← kv args "nt")).mapM fun s =>
     match s.splitOn ":" with
     | [l, a, d, to, sc, tc, c, uo, uc, ca, sv, fr, t, au] =>
       some { legacy := b l, allowOk := b a, denyOk := b d, tmplOpenOk := b to, sendClose := b sc, tmplCloseOk := b tc, cls := unhex c,
-             urlOpen := b uo, urlClose := b uc, extraCaOk := b ca, serverOk := b sv, fromSet := b fr, toSet := b t, authOk := b au : Notifier }
+             urlOpen := b uo, urlClose := b uc, extraCaOk := b ca, serverOk := (addr? sv).map (validHostPort false) |>.getD false,
+             fromSet := b fr, toSet := b t, authOk := b au : Notifier }
     | _ => none
   let clusters ← (items (← kv args "cl")).mapM fun s =>
     match s.splitOn ":" with
-    | [c, p, n, ok] => do pure { cls := unhex c, profile := ← profile? p, serversN := n.toNat?.getD 0, serversOk := b ok : Cluster }
+    | [c, p, srv] => do
+      let l ← addrs? srv
+      pure { cls := unhex c, profile := ← profile? p, serversN := l.length, serversOk := validHostList l : Cluster }
     | _ => none
   let consumers ← (items (← kv args "co")).mapM fun s =>
     match s.splitOn ":" with
-    | [k, c, p, n, ok, z, l, a, d] => do
-      pure { clusterKnown := b k, cls := unhex c, profile := ← profile? p, serversN := n.toNat?.getD 0, serversOk := b ok,
-             zkPathOk := b z, legacy := b l, allowOk := b a, denyOk := b d : Consumer }
+    | [k, c, p, srv, z, l, a, d] => do
+      let sl ← addrs? srv
+      pure { clusterKnown := b k, cls := unhex c, profile := ← profile? p, serversN := sl.length, serversOk := validHostList sl,
+             zkPathOk := validZkPath (unhex z), legacy := b l, allowOk := b a, denyOk := b d : Consumer }
     | _ => none
   let loc ← kv args "local"
   pure ({ haveNotifiers := b hn, zk, storage, evaluator, listeners, notifiers, clusters, consumers }, b loc)
